@@ -60,6 +60,7 @@ struct builder {
 		auto const& op = s.kids.at(0).atom;
 		auto arg = [&](size_t i) -> sx const& { return s.kids.at(i); };
 		if (op == "chr" || op == "str") { std::string t = unhex(arg(1).atom); if (op == "chr" && t.size() == 1) return mk(chr(t[0])); return mk(str(keep(t))); }
+		if (op == "bre") return mk(bre(keep(unhex(arg(1).atom))));
 		if (op == "any") return mk(any);
 		if (op == "eps") return mk(eps);
 		if (op == "nop") return mk(nop);
@@ -172,8 +173,10 @@ static thread_local std::size_t g_steps = 0;
 static thread_local std::size_t g_budget = 0;
 static thread_local unsigned long long g_hash = 0;
 static thread_local bool g_trace = false;
+static thread_local bool g_in_run = false;   // the hook also fires while lug parses a bre pattern at grammar construction: not counted
 static void step_hook(parser_base& p, std::size_t instr_index)
 {
+	if (!g_in_run) return;
 	if (g_steps >= g_budget) throw budget_exceeded{};
 	++g_steps;
 	auto const& r = p.registers_;
@@ -247,12 +250,17 @@ static void run_one_inproc(int caseno, std::string const& tag, std::string const
 	std::string resbuf;
 	try {
 		feed(p);
+		g_in_run = true;
 		res = p.parse() ? "1" : "0";
+		g_in_run = false;
 	} catch (budget_exceeded const&) {
+		g_in_run = false;
 		res = "diverged";
 	} catch (lug_error const& ex) {
+		g_in_run = false;
 		resbuf = std::string("throw:") + ex.what(); for (auto& c : resbuf) if (c == ' ') c = '_'; res = resbuf.c_str();
 	} catch (std::exception const& ex) {
+		g_in_run = false;
 		resbuf = std::string("throw:std:") + typeid(ex).name(); res = resbuf.c_str();
 	}
 	finish_run(caseno, tag, inhex, res, p, e, log);
